@@ -27,7 +27,10 @@ def run_one(args):
     scratch = tempfile.mkdtemp(prefix='verif-seed-', dir='/var/tmp')
     try:
         shutil.copytree('/repo/include', os.path.join(scratch, 'include'))
-        r = subprocess.run(['patch', '-p1', '-s', '-d', scratch, '-i', os.path.join(d, 'patch.diff')], stdout=subprocess.PIPE, stderr=subprocess.STDOUT, text=True)
+        # a change written against the tree before the fix: commits may carry a hand-rebased twin for today's tree
+        pf = os.path.join(d, 'patch_fixed_tree.diff')
+        use = pf if os.path.exists(pf) else os.path.join(d, 'patch.diff')
+        r = subprocess.run(['patch', '-p1', '-s', '-F0', '-d', scratch, '-i', use], stdout=subprocess.PIPE, stderr=subprocess.STDOUT, text=True)
         if r.returncode != 0:
             return name, {'_patch': 'does not apply: ' + r.stdout[-200:]}
         res = {}
